@@ -21,12 +21,24 @@ CLAIMED = {
         "technique": "call-site error-discipline analysis over typed HIR (resolved callees, consumption of io::Result values)",
         "design_ref": "DESIGN.md §3 R-IOERR, §4 C15",
     },
+    "C03": {
+        "text": "Decides the three refusal clauses on the CKKS projection of the program (SchemeType dispatch "
+                "specialised to CKKS): for every form of add/sub/multiply/square/add_plain/sub_plain/multiply_plain, no "
+                "normally-returning path lacks a refusing branch on the levels of both ciphertexts, on the scales of "
+                "both operands, or on the resulting scale against the modulus size (interprocedural guard dominance).",
+        "note": _TB + "Not decided: the numerical error bound, the tolerance used when comparing scales, and the "
+                "arithmetic value of the recorded scale.",
+        "technique": "scheme-projected guard-dominance dataflow over typed HIR with callee summaries",
+        "design_ref": "DESIGN.md §3 R-GUARD, §4 C03",
+    },
     "C05": {
         "text": "Decides the termination clause outright for the loop shape involved: every while/loop in "
                 "evaluator.rs/context.rs/app/lwe.rs (whole crate in the thorough tier) has an exit condition that "
                 "reads something the loop writes (or an explicit exit), and each level-walking loop hands the walked "
                 "object to a callee that, on every normally-returning path, moves it to next_context_data (so the "
-                "finite chain is walked strictly downward or the call refuses).",
+                "finite chain is walked strictly downward or the call refuses). Refusals: no normally-returning path of "
+                "the to-target forms lacks the upward test, none of the to-next/rescale forms lacks the last-level "
+                "test, and on the BFV and BGV projections the rescale entry points never return normally.",
         "note": _TB + "Not decided: preservation of the decrypted message, rounding bounds, BGV correction-factor "
                 "arithmetic. Interior mutability / external state in a loop condition yields `unresolved`, never an alarm.",
         "technique": "loop-variant analysis on typed HIR (read/write sets, Freeze types) + interprocedural must-pass-through",
@@ -59,7 +71,7 @@ CLAIMED = {
 
 _NYB = "rules designed (DESIGN.md §4) but not built yet in this tree; not claimed until the check exists"
 NOT_APPLICABLE = {
-    "C01": _NYB, "C02": _NYB, "C03": _NYB, "C04": _NYB,
+    "C01": _NYB, "C02": _NYB, "C04": _NYB,
     "C07": "every clause compares a reported integer with exact big-integer arithmetic on runtime phase/noise "
            "values; no necessary condition is visible in the shape of the code (DESIGN.md §5)",
     "C08": _NYB, "C09": _NYB, "C10": _NYB, "C11": _NYB, "C12": _NYB, "C13": _NYB, "C14": _NYB,
